@@ -742,6 +742,8 @@ class Run:
                 ret = p.resume() if arg == 'NULL' else p.resume(pyval(arg))
             elif name == 'fail':
                 ret = p.fail(Injected(arg), None)
+            elif name == 'close':
+                ret = p.close()
             else:
                 raise AssertionError(name)
         except Exception as e:
